@@ -75,6 +75,7 @@ struct Report {
   // replay filter: when non-empty only cases whose id equals `only` are executed (and verbosely).
   std::string only;
   bool verbose = false;
+  bool silent = false;  // negative-control mode: count, do not print
 
   void add(const char* k, uint64_t n = 1) { counters[k] += n; }
   void nontrivial(const std::string& case_id) { distinct.insert(fnv(case_id)); }
@@ -85,7 +86,7 @@ struct Report {
   void note(const std::string& n) { notes.push_back(n); }
   bool want(const std::string& case_id) const { return only.empty() || only == case_id; }
   void sample(const std::string& json) {
-    if (samples < max_samples) {
+    if (samples < max_samples && !silent) {
       samples++;
       printf("{\"t\":\"sample\",\"v\":%s}\n", json.c_str());
     }
@@ -95,7 +96,7 @@ struct Report {
             const std::string& detail = "{}") {
     violations++;
     viol_count_per_sig[sig]++;
-    if (viol_per_sig[sig]++ < 3) {
+    if (viol_per_sig[sig]++ < 3 && !silent) {
       printf("{\"t\":\"viol\",\"sig\":%s,\"case\":%s,\"msg\":%s,\"detail\":%s}\n", jstr(sig).c_str(),
              jstr(case_id).c_str(), jstr(msg).c_str(), detail.c_str());
       fflush(stdout);
